@@ -893,6 +893,78 @@ def check_axisangle_structure(ctx: Check, tree: Tree) -> None:
     ctx.verdict(ok_d, "R-WIRING", f"{fn.qual}::sign", tree.loc(fn.node), "get_opposite_helicity_sign: -1 iff the state is the opposite-helicity state (and not the initial state), else +1")
 
 
+def check_dpd_generator(ctx: Check, tree: Tree) -> None:
+    """R-WIRING (DPD): the Wigner-d generator returns 1 only for spin 0, otherwise
+    Wigner.d(j, m, m', zeta) with zeta = formulate_zeta_angle(rotated state, aligned subsystem,
+    THIS alignment's reference subsystem), and registers the definition of every zeta it uses;
+    the alignment hands out component 0 as amplitude and component 1 as symbol definitions; the
+    relabelling shifts every edge id by one (-1..3 -> 0..4)."""
+    mod = "ampform.helicity.align.dpd"
+    cls = tree.cls(f"{mod}::_DPDAlignmentWignerGenerator")
+    call = cls.methods.get("__call__")
+    init = cls.methods.get("__init__")
+    if call is None or init is None:
+        raise AnalysisError("vanished anchor: _DPDAlignmentWignerGenerator.__call__/__init__")
+    rd = RD(call.node)
+    problems = []
+    j = call.params[1]
+    short = [n for n in walk_function(call.node) if isinstance(n, ast.If) and any(isinstance(b, ast.Return) for b in n.body)]
+    for n in short:
+        t = n.test
+        ok_t = isinstance(t, ast.Compare) and len(t.ops) == 1 and isinstance(t.ops[0], ast.Eq) and unparse(t.left) == j and unparse(t.comparators[0]) == "0"
+        r = next(b for b in n.body if isinstance(b, ast.Return))
+        ok_v = unparse(r.value) in {"sp.Rational(1)", "1", "sp.S.One", "sp.Integer(1)"}
+        if not (ok_t and ok_v):
+            problems.append(f"shortcut `if {unparse(t)}: return {unparse(r.value)}` is not `if {j} == 0: return 1`")
+    finals = [r for r in walk_function(call.node, nested=False) if isinstance(r, ast.Return) and not any(isinstance(a, ast.If) for a in ancestors(r))]
+    if len(finals) != 1 or not (isinstance(finals[0].value, ast.Call) and unparse(finals[0].value.func).endswith(".d")):
+        problems.append("the general case does not return Wigner.d(...)")
+    else:
+        dargs = [unparse(a) for a in finals[0].value.args]
+        if dargs[:3] != call.params[1:4]:
+            problems.append(f"Wigner.d arguments {dargs[:3]} are not (j, m, m_prime) as received")
+        zeta = finals[0].value.args[3] if len(finals[0].value.args) > 3 else None
+        zdefs = list(rd.reaching(zeta)) if isinstance(zeta, ast.Name) else []
+        zcall = zdefs[0].value if len(zdefs) == 1 and isinstance(zdefs[0].value, ast.Call) else None
+        if zcall is None or not unparse(zcall.func).endswith("formulate_zeta_angle") or zdefs[0].index != 0:
+            problems.append("zeta is not the symbol returned by formulate_zeta_angle")
+        else:
+            zargs = [unparse(a) for a in zcall.args]
+            if zargs != [call.params[4], call.params[5], "self.reference_subsystem"]:
+                problems.append(f"formulate_zeta_angle{tuple(zargs)} is not (rotated_state, aligned_subsystem, self.reference_subsystem)")
+            stores = [n for n in walk_function(call.node) if isinstance(n, ast.Assign) and isinstance(n.targets[0], ast.Subscript) and unparse(n.targets[0].value) == "self.angle_definitions"]
+            ok_store = len(stores) == 1 and isinstance(stores[0].value, ast.Name) and any(d.value is zcall and d.index == 1 for d in rd.reaching(stores[0].value)) and unparse(stores[0].targets[0].slice) == unparse(zeta) \
+                and not any(isinstance(a, ast.If) for a in ancestors(stores[0]))
+            if not ok_store:
+                problems.append("the definition of zeta is not registered in self.angle_definitions on the general path")
+    ok_init = any(isinstance(n, ast.Assign) and unparse(n.targets[0]) == "self.reference_subsystem" and unparse(n.value) == init.params[1] for n in walk_function(init.node))
+    if not ok_init:
+        problems.append("__init__ does not keep the reference subsystem")
+    ctx.verdict(not problems, "R-WIRING", f"{cls.qual}::generator", tree.loc(call.node),
+                "DPD Wigner-d generator: 1 iff j == 0, else Wigner.d(j, m, m', zeta(rotated state, aligned subsystem, own reference)) with zeta's definition registered", problems or None)
+    # components of the memoised pair
+    al = tree.cls(f"{mod}::DalitzPlotDecomposition")
+    comp = {}
+    for name in ("formulate_amplitude", "define_symbols"):
+        m = al.methods.get(name)
+        subs_ = [n for n in walk_function(m.node) if isinstance(n, ast.Subscript) and isinstance(n.value, ast.Call) and unparse(n.value.func).endswith("_formulate_aligned_amplitude")] if m else []
+        comp[name] = (unparse(subs_[0].slice), [unparse(a) for a in subs_[0].value.args]) if len(subs_) == 1 else None
+    ok = comp["formulate_amplitude"] == ("0", ["reaction", "self.reference_subsystem"]) and comp["define_symbols"] == ("1", ["reaction", "self.reference_subsystem"])
+    ctx.verdict(ok, "R-WIRING", f"{al.qual}::components", tree.loc(al.node), "DalitzPlotDecomposition: amplitude = component 0, symbol definitions = component 1 of _formulate_aligned_amplitude(reaction, own reference subsystem)",
+                None if ok else comp)
+    # relabelling -1..3 -> 0..4
+    rel = tree.func(f"{mod}::__get_default_relabel_mapping")
+    rets = [r for r in walk_function(rel.node) if isinstance(r, ast.Return) and r.value is not None]
+    ok = len(rets) == 1 and unparse(rets[0].value).replace(" ", "") in {"{i-1:iforiinrange(5)}", "{i:i+1foriinrange(-1,4)}"}
+    if not ok and len(rets) == 1 and isinstance(rets[0].value, ast.Dict):
+        try:
+            lit = {ast.literal_eval(k): ast.literal_eval(v) for k, v in zip(rets[0].value.keys, rets[0].value.values)}
+            ok = lit == {-1: 0, 0: 1, 1: 2, 2: 3, 3: 4}
+        except Exception:  # noqa: BLE001
+            ok = False
+    ctx.verdict(ok, "R-WIRING", f"{rel.qual}::shift-by-one", tree.loc(rel.node), "DPD relabelling maps the edge ids -1, 0, 1, 2, 3 to 0, 1, 2, 3, 4 (initial state 0, final states 1..3, resonance 4)")
+
+
 def run(ctx: Check, tree: Tree) -> None:
     ctx.decided += [
         "no `.remove(x)` reachable in the package can raise: each is dominated by a membership test, inside a handler, or covered by a recorded structural invariant (R-GUARD)",
@@ -918,4 +990,5 @@ def run(ctx: Check, tree: Tree) -> None:
     ctx.section(check_axisangle_amplitude, ctx, tree)
     ctx.section(check_axisangle_structure, ctx, tree)
     ctx.section(check_dpd_summand, ctx, tree)
+    ctx.section(check_dpd_generator, ctx, tree)
     ctx.section(check_spin_range_not_cached_mutable, ctx, tree)
